@@ -107,16 +107,16 @@ void forwardRoundTrip(vf::Ctx & c)
     static_cast<long double>(P0[2]) * P0[2] / (b * b);
   double eqres = static_cast<double>(fabsl(q - 1.0L));
   c.maxStat("ellipsoid-equation-residual", eqres);
-  c.check(eqres <= 1e-9, vf::fmt("surface point violates the ellipsoid equation by %.3g", eqres));
+  VF_CHECK(c, eqres <= 1e-9, "surface point violates the ellipsoid equation by %.3g", eqres);
   Eigen::Vector3d nrm(std::cos(g.lat) * std::cos(g.lon), std::cos(g.lat) * std::sin(g.lon), std::sin(g.lat));
   Eigen::Vector3d grad(P0[0] / (e.a * e.a), P0[1] / (e.a * e.a), P0[2] / (e.b * e.b));
   double par = (grad.normalized().cross(nrm)).norm();
   c.maxStat("gradient-vs-normal(sin angle)", par);
-  c.check(par <= 1e-9, vf::fmt("ellipsoid gradient at the surface point is not parallel to n(lat,lon): sin=%.3g", par));
+  VF_CHECK(c, par <= 1e-9, "ellipsoid gradient at the surface point is not parallel to n(lat,lon): sin=%.3g", par);
   c.check(grad.dot(nrm) > 0, "surface normal points inward");
   double off = (P - P0 - g.h * nrm).norm();
   c.maxStat("height-offset-residual[m]", off);
-  c.check(off <= 1e-6, vf::fmt("toECEF(h) - toECEF(0) differs from h*n by %.3g m", off));
+  VF_CHECK(c, off <= 1e-6, "toECEF(h) - toECEF(0) differs from h*n by %.3g m", off);
 
   // (v) long-double reference
   long double R[3], n[3], p0[3];
@@ -124,7 +124,7 @@ void forwardRoundTrip(vf::Ctx & c)
   double dref = std::sqrt(
     static_cast<double>((P[0] - R[0]) * (P[0] - R[0]) + (P[1] - R[1]) * (P[1] - R[1]) + (P[2] - R[2]) * (P[2] - R[2])));
   c.maxStat("forward-vs-longdouble[m]", dref);
-  c.check(dref <= 1e-6, vf::fmt("toECEF differs from the long-double reference by %.3g m", dref));
+  VF_CHECK(c, dref <= 1e-6, "toECEF differs from the long-double reference by %.3g m", dref);
 
   // (ii) round trip
   GeodeticCoordinates back = conv.toWGS84(P);
@@ -135,9 +135,9 @@ void forwardRoundTrip(vf::Ctx & c)
   c.maxStat("roundtrip-dlat[rad]", dlat);
   c.maxStat("roundtrip-dlon[rad]", dlon);
   c.maxStat("roundtrip-dh[m]", dh);
-  c.check(dlat <= 1e-9, vf::fmt("round trip latitude error %.3g rad (lat=%.17g lon=%.17g h=%.17g)", dlat, g.lat, g.lon, g.h));
-  c.check(dlon <= 1e-9, vf::fmt("round trip longitude error %.3g rad (lat=%.17g lon=%.17g h=%.17g) got %.17g", dlon, g.lat, g.lon, g.h, back.longitude));
-  c.check(dh <= 1e-3, vf::fmt("round trip height error %.3g m (lat=%.17g lon=%.17g h=%.17g)", dh, g.lat, g.lon, g.h));
+  VF_CHECK(c, dlat <= 1e-9, "round trip latitude error %.3g rad (lat=%.17g lon=%.17g h=%.17g)", dlat, g.lat, g.lon, g.h);
+  VF_CHECK(c, dlon <= 1e-9, "round trip longitude error %.3g rad (lat=%.17g lon=%.17g h=%.17g) got %.17g", dlon, g.lat, g.lon, g.h, back.longitude);
+  VF_CHECK(c, dh <= 1e-3, "round trip height error %.3g m (lat=%.17g lon=%.17g h=%.17g)", dh, g.lat, g.lon, g.h);
 }
 
 // ECEF -> geodetic -> ECEF
@@ -170,8 +170,8 @@ void reverseRoundTrip(vf::Ctx & c)
   Eigen::Vector3d Y = conv.toECEF(g);
   double d = (Y - X).norm();
   c.maxStat("ecef-roundtrip[m]", d);
-  c.check(d <= 1e-3, vf::fmt("ECEF->geodetic->ECEF differs by %.6g m at X=(%.17g,%.17g,%.17g), geodetic (%.17g,%.17g,%.17g)",
-    d, X[0], X[1], X[2], g.latitude, g.longitude, g.altitude));
+  VF_CHECK(c, d <= 1e-3, "ECEF->geodetic->ECEF differs by %.6g m at X=(%.17g,%.17g,%.17g), geodetic (%.17g,%.17g,%.17g)",
+    d, X[0], X[1], X[2], g.latitude, g.longitude, g.altitude);
 }
 
 const std::vector<vf::Sub> kSubs = {
